@@ -581,6 +581,38 @@ class Restorer(object):
             again = False
             rounds += 1
             for blk in _blocks(fnode):
+                # (6) `x = A if T else B` / `return A if T else B` where T is a guard the confirmed tree tests in an if-statement:
+                # read as that if-statement
+                for i, s in enumerate(blk):
+                    val = s.value if isinstance(s, (ast.Assign, ast.Return)) else None
+                    if isinstance(val, ast.IfExp) and (not isinstance(s, ast.Assign) or len(s.targets) == 1):
+                        kt = known(val.test)
+                        neg = ast.UnaryOp(op=ast.Not(), operand=val.test)
+                        kn = known(neg) if kt is None else None
+                        if kt is None and kn is None:
+                            continue
+
+                        def mk(v_):
+                            if isinstance(s, ast.Return):
+                                n_ = ast.Return(value=v_)
+                            else:
+                                n_ = ast.Assign(targets=[_clone(s.targets[0])], value=v_)
+                            for x in ast.walk(n_):
+                                ast.copy_location(x, s)
+                            return n_
+                        test = val.test if kt is not None else neg
+                        a_, b_ = (val.body, val.orelse) if kt is not None else (val.orelse, val.body)
+                        new_if = ast.If(test=test, body=[mk(a_)], orelse=[mk(b_)])
+                        ast.copy_location(new_if, s)
+                        for x in ast.walk(new_if.test):
+                            ast.copy_location(x, s)
+                        blk[i] = new_if
+                        self.log(s, 'conditional expression on `%s` read as the if-statement of the confirmed tree' % norm(val.test)[:40])
+                        changed += 1
+                        again = True
+                        break
+                if again:
+                    break
                 # (4) `r = n % b` then `n = n // b` is `n, r = divmod(n, b)` when that is what the confirmed tree says
                 for i in range(len(blk) - 1):
                     s1, s2 = blk[i], blk[i + 1]
